@@ -340,7 +340,15 @@ class DoctestParser:
                     example = slice_example(s1, s2)
                     yield example
                 s1 = s2
-            if want_lines and mode_hint in {'eval', 'single'}:
+            wants_traceback = False
+            if want_lines and mode_hint == 'exec':
+                # A traceback want is about the final statement as well: an
+                # exception raised by an earlier statement of the chunk must
+                # not be taken for the expected one.
+                from xdoctest import checker
+                wants_traceback = checker.extract_exc_want(
+                    '\n'.join(want_lines)) is not None
+            if want_lines and (mode_hint in {'eval', 'single'} or wants_traceback):
                 # Whenever the evaluation of the final line needs to be tested
                 # against want, that line must be separated into its own part.
                 # We break the last line off so we can eval its value, but keep
